@@ -293,7 +293,18 @@ func runCheck(prop, tier string) int {
 			ev.Conformed, ev.ConformSteps = n, steps
 			totConf += int64(n)
 			for _, he := range errs {
-				hard = append(hard, "conformance: "+he)
+				if prop == "C20" {
+					// the same blocks and messages give another state on the full application (other stores, module manager,
+					// another keeper instance) than on the explorer's rig: the result depends on the process
+					cls := confClass(he.Msg)
+					allFound = append(allFound, struct {
+						run  string
+						f    Found
+						pure bool
+					}{rs.Name, Found{Violation: viol("C20", "independent-of-process", "full-application", cls, he.Msg), Trace: append(append([]string{}, he.Trace...), "<full-application>"), Count: 1}, false})
+					continue
+				}
+				hard = append(hard, "conformance: "+he.Msg)
 			}
 		}
 		hard = append(hard, e.Hard...)
@@ -446,7 +457,9 @@ func runCheck(prop, tier string) int {
 		for _, h := range hard {
 			fmt.Fprintln(os.Stderr, "HARD ERROR:", h)
 		}
-		return 3
+		if exit != 1 { // a violation confirmed by replay stands whatever else went wrong
+			return 3
+		}
 	}
 	fmt.Printf("%s %s: states=%d transitions=%d violations=%d known=%d exhaustive=%v wall=%.1fs\n", prop, tier, totStates, totTrans, nviol, len(knownSeen), exhaustive, time.Since(start).Seconds())
 	return exit
@@ -574,6 +587,15 @@ func replayOnce(rs *RunSpec, trace []string) (sigs []string, log []string, err e
 			}
 			break
 		}
+		if name == "<full-application>" {
+			if _, es := conformOne(e.Sc, trace[:i]); es != "" {
+				cls := confClass(es)
+				sg := viol("C20", "independent-of-process", "full-application", cls, "").Sig
+				sigs = append(sigs, sg)
+				log = append(log, "    !! "+sg+" :: "+es)
+			}
+			break
+		}
 		if name == "<query>" {
 			vs, _ := queryState(e.rig, e.Sc, s)
 			for _, vi := range vs {
@@ -633,6 +655,15 @@ func replayOnce(rs *RunSpec, trace []string) (sigs []string, log []string, err e
 		log = append(log, diffStates(s, post)...)
 		t := &Trans{Pre: v, Act: *act, Res: res, Post: pv, PreMon: mon, PostMon: pm}
 		halt := act.Kind == "E" && res.Panic != ""
+		if act.Kind == "restart" && !res.OK() && res.Prepared != nil {
+			tp := &Trans{Pre: v, Act: *act, Res: res, Post: e.rig.Decode(res.Prepared), PreMon: mon, PostMon: mon}
+			for _, o := range e.Oracles {
+				for _, vi := range restartPreserves(o.Prop(), x, tp) {
+					sigs = append(sigs, vi.Sig)
+					log = append(log, "    !! "+vi.Sig+" :: "+vi.Detail)
+				}
+			}
+		}
 		for _, o := range e.Oracles {
 			if halt && o.Prop() != "C20" {
 				continue // chain halt: judged by C20 only (explore.go)
@@ -692,4 +723,19 @@ func diffStates(a, b *State) []string {
 		}
 	}
 	return out
+}
+
+// confClass names the kind of disagreement between the explorer and the full application (no keys, no numbers).
+func confClass(msg string) string {
+	switch {
+	case strings.Contains(msg, "service store"):
+		return "service-store-differs"
+	case strings.Contains(msg, "balance of"):
+		return "balances-differ"
+	case strings.Contains(msg, "full application panic"):
+		return "full-application-panics"
+	case strings.Contains(msg, "explorer"):
+		return "outcomes-differ"
+	}
+	return "differs"
 }
